@@ -17,7 +17,7 @@ Record conts := {
 }.
 Definition conts_new : conts :=
   {| k_eb := repeat common_new 4; k_ebc := repeat common_new 4; k_built := repeat None 4;
-     k_batch := repeat None 4; k_cmd := repeat cmdbuf_new 2; k_next := 1099511627776 |}.
+     k_batch := repeat None 4; k_cmd := repeat cmdbuf_new 2; k_next := 1073741824 |}.
 
 Record est := { e_u : universe; e_ws : list wslot; e_handles : list entity; e_prep : list (N * prepared); e_k : conts }.
 
@@ -420,6 +420,9 @@ Definition exec_cont (st : est) (opc : N) (l : list N) : est * list N * list N :
           let n := spawn_count c in
           let '(w', c', spawned, d, p) := cm_run_on u w c in
           let st1 := set_k st (k_with_cmd k (updN (k_cmd k) cb c')) in
+          (* run_on does not report the handles it spawned: the harness recovers them as the entities
+             that exist afterwards and did not exist before, in handle order *)
+          let spawned := sort_by enc_entity (filter (fun h => match get_mut (w_ents w') h with Some _ => true | None => false end) spawned) in
           let hs := spawned ++ repeatN NOHANDLE (n - lenN spawned) in
           match p with
           | None => (add_handles (set_w st1 wi w' 0) hs, rest, out_ok u (map enc_entity spawned) d)
